@@ -437,9 +437,29 @@ pub enum Case {
         junk: bool,
     },
     /// `term`: a further terminal configuration for the layout + render part (None = only the
-    /// standing one)
-    Doc { target: Target, origin: Origin, chain: Vec<Wrap>, body: J, ext: u32, odd: u32, #[serde(default)] term: Option<TermCfg> },
-    Bytes { target: Target, bytes: Vec<u8>, mutated: bool, #[serde(default)] term: Option<TermCfg> },
+    /// standing one); `listen`: deserialisation, layout and render run while a `tracing`
+    /// subscriber that formats every field of every event and span is installed
+    Doc {
+        target: Target,
+        origin: Origin,
+        chain: Vec<Wrap>,
+        body: J,
+        ext: u32,
+        odd: u32,
+        #[serde(default)]
+        term: Option<TermCfg>,
+        #[serde(default)]
+        listen: bool,
+    },
+    Bytes {
+        target: Target,
+        bytes: Vec<u8>,
+        mutated: bool,
+        #[serde(default)]
+        term: Option<TermCfg>,
+        #[serde(default)]
+        listen: bool,
+    },
 }
 
 fn rgba_of(px: u32) -> RGBA {
@@ -882,6 +902,159 @@ fn check_image_json(
         Some(ch) => format!("rt/image-json/c{ch}"),
     };
     Ok(Pass::new(height * width >= 2).label(label))
+}
+
+// ---------------------------------------------------------------------------------------
+// process configuration: a `tracing` subscriber that listens to everything
+
+/// The library reports through `tracing` (events, spans, `#[instrument]`).  The field
+/// expressions and the Debug/Display impls of the recorded values are library code that runs
+/// only when a subscriber is interested: "a logging subscriber is installed" is an ordinary
+/// configuration of the process the library runs in.  This subscriber is interested in every
+/// level and formats every field of every event / span / later record into a discarding sink
+/// (what a `fmt` subscriber does, minus the output).
+pub mod listener {
+    use std::fmt::{self, Write};
+    use std::sync::Arc;
+    use std::sync::atomic::{AtomicU64, Ordering};
+    use tracing::field::{Field, Visit};
+    use tracing::level_filters::LevelFilter;
+    use tracing::subscriber::Interest;
+    use tracing::{Event, Metadata, Subscriber, span};
+
+    #[derive(Default)]
+    pub struct Stats {
+        pub events: AtomicU64,
+        pub spans: AtomicU64,
+        pub bytes: AtomicU64,
+    }
+
+    /// what was delivered while the subscriber was installed
+    #[derive(Clone, Copy, Debug, Default)]
+    pub struct Seen {
+        pub events: u64,
+        pub spans: u64,
+        pub bytes: u64,
+    }
+
+    struct Sink(u64);
+
+    impl Write for Sink {
+        fn write_str(&mut self, s: &str) -> fmt::Result {
+            self.0 = self.0.wrapping_add(s.len() as u64);
+            Ok(())
+        }
+    }
+
+    impl Visit for Sink {
+        fn record_debug(&mut self, field: &Field, value: &dyn fmt::Debug) {
+            // every other record_* method of Visit defaults to this one
+            let _ = write!(self, "{}={:?} ", field.name(), value);
+        }
+    }
+
+    pub struct Listener {
+        next_id: AtomicU64,
+        stats: Arc<Stats>,
+    }
+
+    impl Listener {
+        fn took(&self, sink: Sink) {
+            self.stats.bytes.fetch_add(sink.0, Ordering::Relaxed);
+        }
+    }
+
+    impl Subscriber for Listener {
+        fn register_callsite(&self, _meta: &'static Metadata<'static>) -> Interest {
+            // never cached as `always`: a thread (or a later case) without this subscriber
+            // asks its own dispatcher, i.e. behaves as a process without a subscriber
+            Interest::sometimes()
+        }
+
+        fn enabled(&self, _meta: &Metadata<'_>) -> bool {
+            true
+        }
+
+        fn max_level_hint(&self) -> Option<LevelFilter> {
+            Some(LevelFilter::TRACE)
+        }
+
+        fn new_span(&self, attrs: &span::Attributes<'_>) -> span::Id {
+            let mut sink = Sink(0);
+            attrs.record(&mut sink);
+            self.took(sink);
+            self.stats.spans.fetch_add(1, Ordering::Relaxed);
+            span::Id::from_u64(self.next_id.fetch_add(1, Ordering::Relaxed) + 1)
+        }
+
+        fn record(&self, _span: &span::Id, values: &span::Record<'_>) {
+            let mut sink = Sink(0);
+            values.record(&mut sink);
+            self.took(sink);
+        }
+
+        fn record_follows_from(&self, _span: &span::Id, _follows: &span::Id) {}
+
+        fn event(&self, event: &Event<'_>) {
+            let mut sink = Sink(0);
+            let _ = write!(sink, "{} {} ", event.metadata().level(), event.metadata().target());
+            event.record(&mut sink);
+            self.took(sink);
+            self.stats.events.fetch_add(1, Ordering::Relaxed);
+        }
+
+        fn enter(&self, _span: &span::Id) {}
+
+        fn exit(&self, _span: &span::Id) {}
+    }
+
+    /// run `f` with the subscriber installed as this thread's default (restored afterwards,
+    /// also on unwind).  A fresh dispatcher per call: registering it rebuilds the per-callsite
+    /// interest cache of `tracing`, so callsites first hit without a subscriber (cached
+    /// `never`) become `sometimes` and are delivered.
+    pub fn with<T>(f: impl FnOnce() -> T) -> (T, Seen) {
+        let stats = Arc::new(Stats::default());
+        let sub = Listener { next_id: AtomicU64::new(0), stats: stats.clone() };
+        let out = tracing::subscriber::with_default(sub, f);
+        let seen = Seen {
+            events: stats.events.load(Ordering::Relaxed),
+            spans: stats.spans.load(Ordering::Relaxed),
+            bytes: stats.bytes.load(Ordering::Relaxed),
+        };
+        (out, seen)
+    }
+
+    /// Run a check with the subscriber installed.  A failure is run once more without it: if
+    /// it fails there too the plain failure is returned (the subscriber has nothing to do with
+    /// it), otherwise the signature is prefixed with `tracing-subscriber/`.
+    pub fn check_under(listen: bool, run: &dyn Fn() -> crate::engine::Outcome) -> crate::engine::Outcome {
+        if !listen {
+            return run();
+        }
+        let (r, seen) = with(run);
+        match r {
+            Ok(pass) => {
+                let rendered = pass.labels.iter().any(|l| l.ends_with("ok+rendered") || l == "src/built");
+                Ok(pass
+                    .label("tracing-subscriber/installed")
+                    .label_if(rendered, "tracing-subscriber/installed/view-laid-out+rendered")
+                    .label_if(seen.events > 0, "tracing-subscriber/installed/events-delivered")
+                    .label_if(seen.spans > 0, "tracing-subscriber/installed/spans-delivered"))
+            }
+            Err(f) => match run() {
+                Err(plain) => Err(plain),
+                Ok(_) => Err(crate::engine::Fail::new(
+                    format!("tracing-subscriber/{}", f.sig),
+                    format!(
+                        "only while a tracing subscriber interested in every level is this thread's default \
+                         (tracing::subscriber::with_default; {} events, {} spans, {} formatted bytes delivered before the failure); \
+                         the same case passes without a subscriber: {}",
+                        seen.events, seen.spans, seen.bytes, f.msg
+                    ),
+                )),
+            },
+        }
+    }
 }
 
 // ---------------------------------------------------------------------------------------
@@ -1459,10 +1632,12 @@ pub fn check_case(case: &Case) -> Outcome {
         Case::ImageJson { height, width, channels, bytes, order, size_as_map, junk } => {
             check_image_json(*height, *width, *channels, bytes, *order, *size_as_map, *junk)
         }
-        Case::Doc { target, origin, chain, body, ext, odd, term } => {
-            check_doc(*target, *origin, chain, body, *ext, *odd, *term)
+        Case::Doc { target, origin, chain, body, ext, odd, term, listen } => {
+            listener::check_under(*listen, &|| check_doc(*target, *origin, chain, body, *ext, *odd, *term))
         }
-        Case::Bytes { target, bytes, mutated, term } => check_bytes(*target, bytes, *mutated, *term),
+        Case::Bytes { target, bytes, mutated, term, listen } => {
+            listener::check_under(*listen, &|| check_bytes(*target, bytes, *mutated, *term))
+        }
     }
 }
 
@@ -2541,6 +2716,7 @@ fn doc_case() -> BoxedStrategy<Case> {
         ext: v.ext,
         odd: v.odd,
         term: None,
+        listen: false,
     });
     let glyph = prop_oneof![1 => glyph_obj(None, HOSTILE), 2 => glyph_obj(None, MILD), 1 => glyph_obj(None, STRESS)].prop_map(|v| Case::Doc {
         target: Target::Glyph,
@@ -2550,6 +2726,7 @@ fn doc_case() -> BoxedStrategy<Case> {
         ext: v.ext,
         odd: v.odd,
         term: None,
+        listen: false,
     });
     let text = (
         chain_of(text_wrap),
@@ -2564,6 +2741,7 @@ fn doc_case() -> BoxedStrategy<Case> {
             ext: v.ext + e,
             odd: v.odd + o,
             term: None,
+            listen: false,
         }
     });
     // view tree: view layers, optionally ending in a text view with text layers
@@ -2597,7 +2775,7 @@ fn doc_case() -> BoxedStrategy<Case> {
     let view = (chain_of(view_wrap), prop_oneof![4 => view_tail, 1 => text_tail]).prop_map(
         |((mut chain, e, o), (tail, body, e2, o2))| {
             chain.extend(tail);
-            Case::Doc { target: Target::View, origin: Origin::Grammar, chain, body, ext: e + e2, odd: o + o2, term: None }
+            Case::Doc { target: Target::View, origin: Origin::Grammar, chain, body, ext: e + e2, odd: o + o2, term: None, listen: false }
         },
     );
     prop_oneof![3 => image, 3 => glyph, 3 => text, 6 => view].boxed()
@@ -2654,7 +2832,7 @@ fn arbitrary_case() -> BoxedStrategy<Case> {
                     entries.insert(0, ("type".to_string(), J::s(t)));
                 }
             }
-            Case::Doc { target, origin: Origin::Arbitrary, chain: vec![], body, ext: 0, odd: 0, term: None }
+            Case::Doc { target, origin: Origin::Arbitrary, chain: vec![], body, ext: 0, odd: 0, term: None, listen: false }
         })
         .boxed()
 }
@@ -2662,7 +2840,7 @@ fn arbitrary_case() -> BoxedStrategy<Case> {
 fn bytes_case() -> BoxedStrategy<Case> {
     let target = || select(vec![Target::Image, Target::Glyph, Target::Text, Target::View]);
     let raw = (target(), pvec(any::<u8>(), 0..64))
-        .prop_map(|(target, bytes)| Case::Bytes { target, bytes, mutated: false, term: None });
+        .prop_map(|(target, bytes)| Case::Bytes { target, bytes, mutated: false, term: None, listen: false });
     let soup_tokens: Vec<&'static str> = vec![
         "{", "}", "[", "]", ":", ",", "\"", "\\", "\\u", "d800", "0", "1", "-", "e", "E", ".", "9", "true", "false",
         "null", " ", "\"type\"", "\"size\"", "\"data\"", "\"channels\"", "\"text\"", "\"flex\"", "\"image\"",
@@ -2673,6 +2851,7 @@ fn bytes_case() -> BoxedStrategy<Case> {
         bytes: toks.concat().into_bytes(),
         mutated: false,
         term: None,
+        listen: false,
     });
     let mutated = (doc_case(), 0u8..6, any::<Index>(), any::<u8>(), 1usize..6).prop_map(|(case, kind, at, byte, len)| {
         let Case::Doc { target, chain, body, .. } = case else { unreachable!() };
@@ -2699,7 +2878,7 @@ fn bytes_case() -> BoxedStrategy<Case> {
                 _ => bytes.extend_from_slice(b" x"),
             }
         }
-        Case::Bytes { target, bytes, mutated: true, term: None }
+        Case::Bytes { target, bytes, mutated: true, term: None, listen: false }
     });
     prop_oneof![2 => raw, 2 => soup, 5 => mutated].boxed()
 }
@@ -2749,6 +2928,19 @@ fn under_term(cases: BoxedStrategy<Case>) -> BoxedStrategy<Case> {
         .boxed()
 }
 
+/// half of the document cases run with a `tracing` subscriber installed
+fn under_listener(cases: BoxedStrategy<Case>) -> BoxedStrategy<Case> {
+    (cases, any::<bool>())
+        .prop_map(|(mut case, on)| {
+            match &mut case {
+                Case::Doc { listen, .. } | Case::Bytes { listen, .. } => *listen = on,
+                _ => {}
+            }
+            case
+        })
+        .boxed()
+}
+
 // ---------------------------------------------------------------------------------------
 
 impl Property for C19 {
@@ -2777,9 +2969,9 @@ impl Property for C19 {
             2 => chord_case(),
             2 => image_case(),
             2 => image_json_case(),
-            12 => under_term(doc_case()),
-            3 => under_term(arbitrary_case()),
-            3 => under_term(bytes_case()),
+            12 => under_listener(under_term(doc_case())),
+            3 => under_listener(under_term(arbitrary_case())),
+            3 => under_listener(under_term(bytes_case())),
         ]
         .boxed()
     }
@@ -2806,6 +2998,9 @@ impl Property for C19 {
          without glyph support and rendered into a window of a sentinel canvas, in the ViewContext::new context of a 24x80-cell terminal with 20x10 pixels per cell and, for half of the \
          documents, of one further generated terminal as well: no pixel size known (pixels 0x0 => 0x0 pixels per cell; half of the further terminals), fewer pixels than cells in one or both \
          directions (a zero cell extent), or another cell size (1x1, 2x1, 7x3, 16x8, 37x15, 64x64, with pixel remainders), on 24x80 / 1x1 / 50x200 / 0x0 cells. \
+         Half of the document / value / bytes cases (a generated bool) run deserialisation, layout and render while a hand-written tracing::Subscriber is this thread's default \
+         (tracing::subscriber::with_default): interested in every level (callsite interest `sometimes`), it formats every field of every event, new span and span record \
+         with {:?} into a discarding sink, so the library's field expressions and the Debug/Display impls of the recorded values run (labels tracing-subscriber/...). \
          non-trivial = (a) alpha != 255 or >= 2 attributes or non-straight underline; height != width; >= 2 keys or a modifier; >= 2 pixels; \
          (b) grammar document with >= 1 extreme/missing/repeated/wrong-typed field or nesting >= 32; arbitrary value that is an object or deserialises; mutated grammar document or bytes that deserialise"
             .into()
@@ -2819,6 +3014,7 @@ impl Property for C19 {
             "an Err returned by layout/render of a deserialised view counts as 'cannot be laid out/rendered'".into(),
             "'can be laid out and rendered' names no context, so it is read over every context the public constructor ViewContext::new yields for a value of TerminalSize (both fields are public): in particular the terminal that reports no pixel size (pixels 0x0; src/unix.rs handles `pixels.is_empty()`, TerminalSize::pixels_per_cell then returns 0x0). Only panics, errors and writes outside the window are judged there, not what is drawn; failures under a further terminal carry the terminal class in the signature (view-layout/no-pixel-size/..., .../zero-cell-extent/..., .../other-cell-size/...)".into(),
             "a case that does not finish within the per-case time limit twice in a row (second try with twice the time in a fresh worker) is reported as a violation (`terminate/case-did-not-finish`): the statement says deserialisation returns a value or an error".into(),
+            "'never panics' and 'can be laid out and rendered' name no process configuration, so they are read over processes with and without a `tracing` subscriber installed (the library reports through tracing; installing a subscriber is what its own examples do). The subscriber used is the most demanding ordinary one: every level enabled, every field formatted (as tracing_subscriber::fmt at TRACE does), output discarded. Nothing about the content of events is judged; only the existing oracles (no panic, no error from layout/render, no write outside the window, termination). A failure under the subscriber is run once more without it: if it fails there too the plain signature is reported, else the signature is prefixed `tracing-subscriber/`".into(),
             "key chords with mouse keys, NUMLOCK or characters outside the printable key syntax cannot be written in the textual syntax and are outside the property".into(),
             "repeated keys exist only on the text path (serde_json::Value keeps the last one)".into(),
         ]
